@@ -196,8 +196,9 @@ class EncFrame(Component):
             n = rng.choice([1, 2, 3, 4, 5, 6, 7, 8, 9, 15, 16, 17, 31, 32, 33, 63, 64, 65, 100, 128, 192, 255, 256, 257, 576, 1000, 1152])
             if tier == 'quick' and n * ch > 1200:
                 n = max(1, 1200 // ch)
-            if tier == 'thorough' and rng.random() < 0.01:
-                n = rng.choice([4096, 4608, 16384, 65535])
+            if tier == 'thorough' and rng.random() < 0.002:
+                # the list-based model needs seconds per frame of this size: a few dozen per run
+                n = rng.choice([4096, 4608, 16384, 65535 if ch <= 2 else 8192])
             out.append(self.one(rng, n, ch, bps, None, None, None, rng.choice([0, 0, 0, 1, 2, 3]) if n * ch < 300 else 0))
         return out
     def oracle(self, case, impl, profile):
